@@ -219,9 +219,71 @@ pub fn run_c02(cell: &C02Cell, devs: &BTreeMap<usize, usize>) -> RunResult {
     res
 }
 
+/// Discovery presupposes that a packet just large enough to feed the whole
+/// cluster does feed it: for every cluster size up to 24, the Feed answering
+/// a newcomer lists every other active member whenever they fit, and (fixed
+/// size members) omits a member only when it does not fit.
+fn feed_completeness(rep: &mut Report) -> u64 {
+    let mut evals = 0u64;
+    for var in [false, true] {
+        let codec = FixCodec { var };
+        for n in 2..=24usize {
+            let members: Vec<Id> = (1..n as u8).map(|a| id(a, if var { a % 3 } else { 0 })).collect();
+            let newcomer = id(n as u8, 0);
+            let seed_id = id(0, 0);
+            let hdr = codec.header_bytes(&foca::Header { src: seed_id, src_incarnation: 0, dst: newcomer, message: Message::Feed }).len();
+            let body: usize = members.iter().map(|m| codec.member_bytes(&foca::Member::new(*m, 0, State::Alive)).len()).sum();
+            let exact = hdr + 2 + body;
+            let mut sizes: Vec<usize> = vec![exact, exact + 1, exact + 4, 1400];
+            if !var {
+                sizes.extend((hdr + 3..exact).step_by(3));
+            }
+            for packet in sizes {
+                for word in [0u32, 0x5555_5555, 0xAAAA_AAAA, 0xFFFF_FFF0] {
+                    let cfg = Cfg { max_packet: packet, ..base_cfg() };
+                    let mut f = new_foca(seed_id, &cfg, codec, TableHandler::new(InvMode::NewerVersion));
+                    f.verif_rng_mut().default = word;
+                    run_event(&mut f, &Ev::Apply(members.iter().map(|m| foca::Member::new(*m, 0, State::Alive)).collect(), false), &[]);
+                    let ann = dgram(&codec, newcomer, 0, seed_id, Message::Announce, None, &[]);
+                    if ann.len() > packet {
+                        continue;
+                    }
+                    let o = run_event(&mut f, &Ev::Data(ann), &[]);
+                    evals += 1;
+                    let Some((_, d)) = o.sends().find(|(to, _)| **to == newcomer) else {
+                        rep.violate("c02:no-feed", format!("an Announce was not answered with a Feed (n={n}, packet={packet})"), json!({"engine": "e3-feed"}));
+                        return evals;
+                    };
+                    let Ok(p) = grammar::parse(&codec, d) else { continue };
+                    let listed: Vec<Id> = p.updates.iter().flatten().map(|u| *u.id()).collect();
+                    let left = packet - d.len();
+                    let omitted: Vec<&Id> = members.iter().filter(|m| !listed.contains(m)).collect();
+                    let fits_all = packet >= exact;
+                    let bad = if fits_all {
+                        !omitted.is_empty()
+                    } else {
+                        !var && omitted.iter().any(|m| codec.member_bytes(&foca::Member::new(**m, 0, State::Alive)).len() <= left && p.updates.is_some())
+                    };
+                    if bad {
+                        rep.violate(
+                            "c02:feed-omits-members-that-fit",
+                            format!("cluster of {n}: with max_packet_size={packet} (everything fits in {exact}) the Feed to the newcomer lists {} of {} members and leaves {left} bytes unused (variable-length ids: {var})", listed.len(), members.len()),
+                            json!({"engine": "e3-feed", "n": n, "packet": packet}),
+                        );
+                        return evals;
+                    }
+                }
+            }
+        }
+    }
+    evals
+}
+
 pub fn c02(tier: &str) -> Report {
     let th = tier == "thorough";
     let mut rep = Report::new("C02", tier, "model_checking");
+    let feed_evals = feed_completeness(&mut rep);
+    rep.set("feed_completeness_cases(cluster sizes 2..24 x packet sizes x rng)", json!(feed_evals));
     let mut cells: Vec<(C02Cell, usize)> = Vec::new();
     let ns: Vec<usize> = if th { vec![2, 3, 4, 5] } else { vec![2, 3, 4] };
     for &n in &ns {
@@ -260,6 +322,16 @@ pub fn c02(tier: &str) -> Report {
                             cells.push((C02Cell { n, pattern, mt, fanout, periodic, packet, assert_discovery, lat: vec![1, 9] }, d));
                         }
                     }
+                }
+            }
+        }
+    }
+    // larger clusters on (nearly) the default schedule only
+    for &n in if th { &[6usize, 8, 10][..] } else { &[8usize][..] } {
+        for pattern in 0..3u8 {
+            for &mt in &[1u8, 3, 10] {
+                for &(packet, assert_discovery) in &[(9 + 5 * n, true), (9 + 5 * (n - 2), true), (1400, true)] {
+                    cells.push((C02Cell { n, pattern, mt, fanout: 3, periodic: false, packet, assert_discovery, lat: vec![1, 9] }, usize::from(th && n <= 8)));
                 }
             }
         }
